@@ -283,7 +283,7 @@ class RF24MeshNoMaster(NetworkMixin):
                     time.sleep(retry_delay / 1000)
                     retry_delay += 10
             to_node = to_node_addr
-        if to_node == self._id:
+        elif to_node == self._id:
             to_node = self._addr
         return self.write(to_node, message_type, message)
 
